@@ -526,6 +526,15 @@ pub fn run_step(
                 SExp::Integer(l, v) => {
                     /* An integer picks a value from the context */
                     let flat_v = flatten_signed_int(v.clone());
+                    // A zero path (in any spelling, such as 0x00 or "") selects
+                    // nil, as it does in the consensus evaluator.
+                    if flat_v == bi_zero() {
+                        return Ok(RunStep::OpResult(
+                            l.clone(),
+                            Rc::new(SExp::Nil(l.clone())),
+                            Rc::new(step_.clone()),
+                        ));
+                    }
                     return Ok(RunStep::OpResult(
                         l.clone(),
                         choose_path(
